@@ -108,6 +108,7 @@ func (vc *VC) execInstr(fx *FuncCtx, in ssa.Instruction, st *State, fr *Frame) {
 		mt := under(x.Type()).(*types.Map)
 		ref := vc.freshRef()
 		vc.initMap(st, mt, ref)
+		vc.noteLocal(ref, mapKey(mt))
 		fr.regs[x] = ref
 	case *ssa.MakeChan:
 		fr.regs[x] = vc.freshRef()
@@ -181,6 +182,10 @@ func intOf(t *Term) *Term {
 }
 
 func (vc *VC) nilCheck(fx *FuncCtx, st *State, p *PtrV, pos token.Pos) {
+	if len(p.Alts) > 0 {
+		vc.check(fx, st, Not(Eq(st.ptrTerm(p), IntC(0))), "nil dereference", pos)
+		return
+	}
 	if p.Kind != PHeap || p.Base == nil {
 		return
 	}
@@ -988,6 +993,8 @@ func (vc *VC) mapUpdate(fx *FuncCtx, x *ssa.MapUpdate, st *State, fr *Frame) {
 }
 
 func (vc *VC) mapStore(st *State, mt *types.Map, m, k *Term, v Val) {
+	vc.markEscaped(st, v)
+	vc.markEscaped(st, k)
 	ks := keySortOf(mt)
 	kd := vc.reg.get(mapKey(mt)+"#dom", 2, BoolSort, ks)
 	dom := Select(st.heapVar(kd), m)
